@@ -79,6 +79,9 @@ protected:
             {
                 rng.random_vec(f);
             }
+            // The size of the candidate before the projection: what is left of it afterwards
+            // must not be a mere rounding residue (see the test at the end)
+            const RealScalar fnorm0 = m_op.norm(f);
             // f <- f - V * (V^H)Bf, so that f is orthogonal to V in B-norm
             m_op.adjoint_product(V, f, Vf);
             f.noalias() -= V * Vf;
@@ -105,7 +108,10 @@ protected:
 
             // If the condition is satisfied, simply return
             // Otherwise, go to the next iteration and try a new random vector
-            if (ortho_err < m_eps * fnorm)
+            // A candidate that lies in span(V) up to rounding (e.g. range(A) is contained in span(V))
+            // leaves only noise, which the correction passes shrink further until its squares
+            // underflow: the relative test then passes on a vector whose norm has no correct digit
+            if (ortho_err < m_eps * fnorm && fnorm > sqrt(m_eps) * fnorm0)
                 return;
         }
     }
